@@ -341,3 +341,32 @@ Lemma tables_lock :
   visible_tests = [V_DisplayNotNone; V_ValidTransform; V_ConditionPassed] /\
   g_or_use_tags = [T_G; T_Use] /\ structural_tags = [T_G; T_Switch; T_Svg].
 Proof. repeat split. Qed.
+
+(* ------------------------------------------------------------------ has_valid_transform vs invertibility *)
+Lemma singular_transform_refuted : exists t, ts_det t == 0 /\ usvg_ts_valid t = true.
+Proof. exists (from_row 1 2 2 4 300 300). split; vm_compute; reflexivity. Qed.
+
+Lemma singular_transform_guarded t : ts_det t == 0 -> singular_kept t = false -> usvg_ts_valid t = false.
+Proof.
+  intros Hd Hk. unfold singular_kept in Hk. apply andb_false_iff in Hk. destruct Hk as [Hk|Hk]; [|exact Hk].
+  apply Qeqb_true in Hd. congruence.
+Qed.
+
+(* ------------------------------------------------------------------ the spec's zero-size shapes are invalid for shapes.rs *)
+Lemma zero_size_invalid t a : zero_size t a = true -> shape_valid t a = false.
+Proof.
+  unfold zero_size, shape_valid. destruct t; try discriminate;
+    cbv [len_checks_of shape_len_checks tag_eqb tag_idx N.eqb Pos.eqb forallb geom_of poly_min_points]; intros H.
+  - apply orb_prop in H. destruct H as [H|H]; apply Qleb_true in H.
+    + replace (Qltb 0 (a_width a)) with false; [reflexivity|]. symmetry. apply Qltb_false. exact H.
+    + replace (Qltb 0 (a_height a)) with false; [apply andb_false_iff; left; apply andb_false_r|].
+      symmetry. apply Qltb_false. exact H.
+  - apply Qleb_true in H. replace (Qltb 0 (a_r a)) with false; [reflexivity|]. symmetry. apply Qltb_false. exact H.
+  - apply orb_prop in H. destruct H as [H|H]; apply Qleb_true in H.
+    + replace (Qltb 0 (a_rx a)) with false; [reflexivity|]. symmetry. apply Qltb_false. exact H.
+    + replace (Qltb 0 (a_ry a)) with false; [apply andb_false_iff; left; apply andb_false_r|].
+      symmetry. apply Qltb_false. exact H.
+  - apply N.ltb_lt in H. apply andb_false_iff. right. apply N.leb_gt. exact H.
+  - apply N.ltb_lt in H. apply andb_false_iff. right. apply N.leb_gt. exact H.
+  - apply N.ltb_lt in H. apply andb_false_iff. right. apply N.leb_gt. exact H.
+Qed.
